@@ -9,6 +9,7 @@ import (
 	"testing/synctest"
 	"time"
 
+	"verifharness/memnet"
 	"verifharness/mqttref"
 	"verifharness/rt"
 	"verifharness/snref"
@@ -44,6 +45,11 @@ func (s Step) String() string {
 		return fmt.Sprintf("advance %v", s.D)
 	case "stall":
 		return "broker stops reading"
+	case "fail-sends":
+		if s.D > 0 {
+			return "every later gateway->client datagram write fails"
+		}
+		return "the next gateway->client datagram write fails"
 	case "cause":
 		return "cause: " + s.Cause
 	}
@@ -170,6 +176,24 @@ func execSteps(w *world.World, s *world.Session, b *world.Broker, steps []Step) 
 		case "stall":
 			w.Tr.Add(s.ID, world.Note, nil, "broker stops reading (link capacity 2048 bytes)")
 			s.StallBroker(2048)
+		case "fail-sends":
+			// D > 0: every later write fails; D == 0: only the next one
+			all := st.D > 0
+			var fmu sync.Mutex
+			used := false
+			w.Tr.Add(s.ID, world.Note, nil, st.String())
+			s.SetPlan(func(dir string, p *snref.Pkt, n int) memnet.Action {
+				if dir != world.SNOut {
+					return memnet.Pass
+				}
+				fmu.Lock()
+				defer fmu.Unlock()
+				if all || !used {
+					used = true
+					return memnet.Fail
+				}
+				return memnet.Pass
+			})
 		case "note":
 			w.Tr.Add(s.ID, world.Note, nil, st.Cause)
 		case "note-cause":
